@@ -166,7 +166,102 @@ def WFMsg (o : Opts) (bodyLenOf : Bytes → Option Nat) (m : Msg) : Prop :=
   0 < (wireMeta o m).length ∧ (wireMeta o m).length < 2 ^ 31 ∧
   bodyLenOf (wireMeta o m) = some m.body.length
 
-/-! ### push decoder (`StreamDecoder`) at the frame-size level: see `specDecodePush` -/
+/-! ### push decoder (`StreamDecoder`) -/
+
+/-- result of driving `StreamDecoder::decode` from a fresh `Header` state over the remaining
+input until a message completes or the input runs out -/
+inductive PNext where
+  | msg (md body rest : Bytes)
+  | clean      -- nothing read: `Header { read: 0, continuation: false }` (`finish` → Ok)
+  | done       -- end-of-stream marker read, nothing after it (`finish` → Ok)
+  | short      -- input exhausted inside a message (`finish` → "Unexpected End of Stream")
+  | err        -- `decode` returned an error
+  deriving Repr, DecidableEq
+
+/-- `StreamDecoder::decode` (arrow-ipc/src/reader/stream.rs) on one buffer holding `bs`, from
+the `Header` state to the completion of one message:
+* `Header`: 4 bytes; the first word may be the continuation marker (then 4 more); size 0 →
+  `Finished` (any further byte → "Unexpected EOS" error); the size is a `u32` (no sign check)
+* `Message { size }`: `size` bytes, then `MessageBuffer::try_new` (abstract: `bodyLenOf`)
+* `Body`: only entered while the buffer is non-empty (`while !buffer.is_empty()`), so a message
+  whose metadata ends the input stays incomplete even when its body is empty. -/
+def pushNext (bodyLenOf : Bytes → Option Nat) (bs : Bytes) : PNext :=
+  if bs.length = 0 then .clean
+  else
+    match readExact META_LEN_BYTES bs with
+    | none => .short
+    | some (w, r1) =>
+      match (if w = contMarker then readExact META_LEN_BYTES r1 else some (w, r1)) with
+      | none => .short
+      | some (w2, r2) =>
+        let v := le32val w2
+        if v = 0 then (if r2.length = 0 then .done else .err)
+        else if r2.length < v then .short
+        else
+          match bodyLenOf (r2.take v) with
+          | none => .err
+          | some bl =>
+            if (r2.drop v).length = 0 then .short
+            else if (r2.drop v).length < bl then .short
+            else .msg (r2.take v) ((r2.drop v).take bl) ((r2.drop v).drop bl)
+
+theorem pushNext_rest_lt {f : Bytes → Option Nat} {bs md body rest : Bytes}
+    (h : pushNext f bs = .msg md body rest) : rest.length < bs.length := by
+  unfold pushNext at h
+  have hm : META_LEN_BYTES = 4 := rfl
+  rw [hm] at h
+  unfold readExact at h
+  split at h
+  · cases h
+  · split at h
+    · cases h
+    · rename_i w r1 h1
+      split at h
+      · cases h
+      · rename_i w2 r2 h2
+        have hbs : 4 ≤ bs.length := by
+          by_cases hh : 4 ≤ bs.length
+          · exact hh
+          · simp [hh] at h1
+        have hr1 : r1.length = bs.length - 4 := by
+          simp [hbs] at h1
+          rw [← h1.2]; simp
+        have hr2 : r2.length ≤ r1.length := by
+          split at h2
+          · split at h2
+            · simp at h2; rw [← h2.2]; simp
+            · cases h2
+          · simp at h2; rw [h2.2]; exact Nat.le_refl _
+        simp only [] at h
+        split at h
+        · split at h <;> cases h
+        · split at h
+          · cases h
+          · split at h
+            · cases h
+            · split at h
+              · cases h
+              · split at h
+                · cases h
+                · simp at h
+                  rw [← h.2.2]
+                  simp
+                  omega
+
+/-- feed the whole input, collect the messages, then `finish` -/
+def pushAll (bodyLenOf : Bytes → Option Nat) (bs : Bytes) : List (Bytes × Bytes) × End :=
+  match h : pushNext bodyLenOf bs with
+  | .msg md body rest =>
+    let r := pushAll bodyLenOf rest
+    ((md, body) :: r.1, r.2)
+  | .clean => ([], .eos)
+  | .done => ([], .eos)
+  | .short => ([], .err)
+  | .err => ([], .err)
+termination_by bs.length
+decreasing_by exact pushNext_rest_lt h
+
+
 
 /-! ## (b) trailers -/
 
